@@ -134,6 +134,8 @@ pub struct SdProbe {
     gas_after: u64,
     abal_after: U256,
     tbal_after: Option<U256>,
+    /// journal entries the instruction appended to the innermost level, oldest first
+    entries: String,
 }
 
 #[derive(Clone, Debug)]
@@ -184,6 +186,10 @@ pub struct Ext {
     pub script: Vec<P>,
     pub mode: Mode,
     pub rng: Rng,
+    /// ground truth taken by the inspector itself: at `step` on SELFDESTRUCT (contract, stack top, contract balance)
+    pub sd_pending: Option<(Address, Option<U256>, U256)>,
+    /// ... completed at `step_end` when the result is SelfDestruct: (contract, beneficiary = top before, balance before - after)
+    pub sd_expected: Vec<(Address, Address, U256)>,
 }
 
 fn log_hash(l: &Log) -> u64 {
@@ -208,6 +214,12 @@ impl<DB: Database> Inspector<DB> for Ext {
     }
     fn step(&mut self, interp: &mut Interpreter, _c: &mut EvmContext<DB>) {
         self.word.push(W::Step);
+        self.sd_pending = None;
+        if interp.current_opcode() == 0xff && !interp.is_eof {
+            let a = interp.contract.target_address;
+            let bal = _c.journaled_state.state.get(&a).map(|x| x.info.balance).unwrap_or_default();
+            self.sd_pending = Some((a, interp.stack.peek(0).ok(), bal));
+        }
         if self.mode == Mode::Halt && self.rng.chance(1, 9) {
             let op = interp.current_opcode();
             interp.instruction_result =
@@ -215,8 +227,14 @@ impl<DB: Database> Inspector<DB> for Ext {
             self.script.push(P::Halt(op));
         }
     }
-    fn step_end(&mut self, _i: &mut Interpreter, _c: &mut EvmContext<DB>) {
+    fn step_end(&mut self, interp: &mut Interpreter, c: &mut EvmContext<DB>) {
         self.word.push(W::StepEnd);
+        if let Some((a, top, bal)) = self.sd_pending.take() {
+            if interp.instruction_result == InstructionResult::SelfDestruct {
+                let after = c.journaled_state.state.get(&a).map(|x| x.info.balance).unwrap_or_default();
+                self.sd_expected.push((a, ua(top.unwrap_or_default()), bal.saturating_sub(after)));
+            }
+        }
     }
     fn log(&mut self, _i: &mut Interpreter, _c: &mut EvmContext<DB>, log: &Log) {
         self.word.push(W::Log(log_hash(log)));
@@ -283,6 +301,18 @@ fn note_of(e: &JournalEntry) -> Option<(Address, Address, U256)> {
         JournalEntry::AccountDestroyed { address, target, had_balance, .. } => Some((*address, *target, *had_balance)),
         JournalEntry::BalanceTransfer { from, to, balance } => Some((*from, *to, *balance)),
         _ => None,
+    }
+}
+
+fn entry_text(e: &JournalEntry) -> String {
+    match e {
+        JournalEntry::AccountWarmed { address } => format!("W{}", hx(au(*address))),
+        JournalEntry::AccountTouched { address } => format!("T{}", hx(au(*address))),
+        JournalEntry::AccountDestroyed { address, target, was_destroyed, had_balance } => {
+            format!("D{}.{}.{}.{}", hx(au(*address)), hx(au(*target)), b01(*was_destroyed), hx(*had_balance))
+        }
+        JournalEntry::BalanceTransfer { from, to, balance } => format!("B{}.{}.{}", hx(au(*from)), hx(au(*to)), hx(*balance)),
+        _ => "?".into(),
     }
 }
 
@@ -371,6 +401,7 @@ fn probe_instruction(prev: &DynInstruction<'_, Ctx>, interp: &mut Interpreter, h
                 gas_after: 0,
                 abal_after: U256::ZERO,
                 tbal_after: None,
+                entries: String::new(),
             };
             prev(interp, host);
             let js = &host.evm.journaled_state;
@@ -378,6 +409,13 @@ fn probe_instruction(prev: &DynInstruction<'_, Ctx>, interp: &mut Interpreter, h
             p.gas_after = interp.gas.remaining();
             p.abal_after = js.state.get(&a).map(|x| x.info.balance).unwrap_or_default();
             p.tbal_after = top.and_then(|w| js.state.get(&ua(w)).map(|x| x.info.balance));
+            let new: Vec<String> = js
+                .journal
+                .last()
+                .and_then(|l| l.get(p.prev_len..))
+                .map(|l| l.iter().map(entry_text).collect())
+                .unwrap_or_default();
+            p.entries = if new.is_empty() { "-".into() } else { new.join("+") };
             host.external.script.push(P::SdOp(Box::new(p)));
         }
         _ => {
@@ -684,7 +722,7 @@ fn logs_ok(w: &[W], ps: &[P]) -> bool {
         ps.iter().filter_map(|p| if let P::LogOp(b, a, h) = p { if *a == *b + 1 { Some(*h) } else { None } } else { None }).collect();
     seen == want
 }
-fn sd_ok(w: &[W], ps: &[P]) -> bool {
+fn sd_ok(w: &[W], ps: &[P], own: &[(Address, Address, U256)]) -> bool {
     let seen: Vec<(Address, Address, U256)> =
         w.iter().filter_map(|e| if let W::Sd(a, t, v) = e { Some((*a, *t, *v)) } else { None }).collect();
     let want: Vec<(Address, Address, U256)> = ps
@@ -696,18 +734,21 @@ fn sd_ok(w: &[W], ps: &[P]) -> bool {
             _ => None,
         })
         .collect();
-    seen == want
+    // both ground truths (instruction-level probe below the wrappers, and the inspector's own step / step_end
+    // observations) are independent of the journal entries the wrapper reads
+    seen == want && seen == own
 }
 fn sd_results(ps: &[P]) -> String {
     let v: Vec<String> = ps
         .iter()
         .filter_map(|p| match p {
             P::SdOp(p) => Some(format!(
-                "{}/{:x}/{}/{}",
+                "{}/{:x}/{}/{}/{}",
                 res_name(p.res),
                 p.gas_after,
                 hx(p.abal_after),
-                p.tbal_after.map(hx).unwrap_or("-".into())
+                p.tbal_after.map(hx).unwrap_or("-".into()),
+                p.entries
             )),
             _ => None,
         })
@@ -842,7 +883,7 @@ pub fn run_case(c: &Case) -> Option<Vec<TxOut>> {
     let db = build_db(c)?;
     let mode = Mode::parse(&c.mode)?;
     let spec = SpecId::try_from_u8(c.spec)?;
-    let ext = Ext { word: vec![], script: vec![], mode, rng: Rng::new(c.iseed) };
+    let ext = Ext { word: vec![], script: vec![], mode, rng: Rng::new(c.iseed), sd_pending: None, sd_expected: vec![] };
     let mut evm = Evm::builder()
         .with_db(db)
         .with_external_context(ext)
@@ -867,6 +908,8 @@ pub fn run_case(c: &Case) -> Option<Vec<TxOut>> {
         }
         evm.context.external.word.clear();
         evm.context.external.script.clear();
+        evm.context.external.sd_pending = None;
+        evm.context.external.sd_expected.clear();
         evm.context.evm.db.fail_at = t.dbfail;
         evm.context.evm.db.accesses = 0;
         let r = evm.transact();
@@ -893,7 +936,7 @@ pub fn run_case(c: &Case) -> Option<Vec<TxOut>> {
             b01(balanced(&ext.word)),
             st,
             b01(logs_ok(&ext.word, &ext.script)),
-            b01(sd_ok(&ext.word, &ext.script)),
+            b01(sd_ok(&ext.word, &ext.script, &ext.sd_expected)),
             sd_results(&ext.script)
         );
         let mut flags: Vec<&'static str> = vec![status];
@@ -941,6 +984,9 @@ pub fn run_case(c: &Case) -> Option<Vec<TxOut>> {
                         flags.push(if p.tstate == "=" { "sd:self" } else { "sd:other-target" });
                         flags.push(if p.aflags.0 { "sd:created-in-tx" } else { "sd:pre-existing" });
                         flags.push(if p.abal.is_zero() { "sd:no-balance" } else { "sd:with-balance" });
+                        if p.abal.is_zero() && p.tstate != "=" && !p.aflags.0 && c.spec >= SpecId::CANCUN as u8 {
+                            flags.push("sd:cancun+pre-existing+zero-balance+other-target");
+                        }
                         flags.push(if c.spec >= SpecId::CANCUN as u8 { "sd:cancun+" } else { "sd:pre-cancun" });
                     }
                     if p.last_note.is_some() {
@@ -1198,18 +1244,18 @@ fn random_case(rng: &mut Rng, specs: &[u8], mode: &str) -> Case {
 /// SELFDESTRUCT grid: fork x target x balance x created-in-tx x failure x preceded by a value-bearing call
 fn sd_grid(rng: &mut Rng, full: bool) -> Vec<Case> {
     let specs: &[u8] = if full { &[0, 2, 4, 5, 6, 9, 11, 12, 16, 17, 18] } else { &[0, 4, 5, 11, 12, 17, 18] };
+    let _ = &rng;
     let mut v = vec![];
     let victim = 0xA1u64;
     let driver = 0xA0u64;
+    // COMPLETE enumeration in both tiers (no sampling): target = the contract itself / an existing account / a new one
+    let targets: &[u64] = if full { &[victim, EOA, NOBODY, 0xF5, 3] } else { &[victim, EOA, NOBODY] };
     for &spec in specs {
-        for target in [victim, EOA, NOBODY, 0xF5, 3] {
-            for bal in [0u64, 9] {
+        for &target in targets {
+            for bal in [0u64, 1, 1_000_000_000_000_000_000] {
                 for created in [false, true] {
                     for fail in ["none", "static", "underflow", "oog"] {
                         for value_call in [false, true] {
-                            if !full && rng.chance(3, 5) {
-                                continue;
-                            }
                             if fail == "static" && spec < 6 {
                                 continue;
                             }
@@ -1250,7 +1296,7 @@ fn sd_grid(rng: &mut Rng, full: bool) -> Vec<Case> {
                                 accts.push(Acct { addr: victim, balance: U256::from(bal), nonce: 1, code: vc.0.clone() });
                                 d.call(kind, victim, callv, gas, 0).op(0x00);
                             }
-                            accts.push(Acct { addr: driver, balance: U256::from(50), nonce: 1, code: d.0 });
+                            accts.push(Acct { addr: driver, balance: U256::from(4_000_000_000_000_000_050u64), nonce: 1, code: d.0 });
                             accts.push(Acct { addr: EOA, balance: U256::from(3), nonce: 0, code: vec![] });
                             let target_is_self_created = created && target == victim;
                             let _ = target_is_self_created;
@@ -1269,7 +1315,7 @@ fn sd_grid(rng: &mut Rng, full: bool) -> Vec<Case> {
     }
     // created-in-transaction contract that names ITSELF (after Cancun: destroyed, balance burnt): initcode self-destructs to ADDRESS
     for &spec in specs {
-        for bal in [0u64, 9] {
+        for bal in [0u64, 1, 9] {
             let mut init = Asm::default();
             init.op(0x30).op(0xff);
             let mut d = Asm::default();
